@@ -27,6 +27,10 @@ class _Raise(Exception):
     pass
 
 
+class _Stop(Exception):
+    pass
+
+
 def value(e, env):
     if isinstance(e, ast.Constant):
         return e.value
@@ -198,15 +202,22 @@ def effects(body, env, what="block"):
                 for n in ast.walk(st.target):
                     if isinstance(n, ast.Name):
                         env.pop(n.id, None)
-                block(st.body, inner)
+                try:
+                    block(st.body, inner)
+                except _Stop:
+                    pass
                 sink.append(("loop", unparse(st.iter), inner))
             elif isinstance(st, ast.Expr) and not isinstance(st.value, ast.Constant):
                 sink.append(("call", unparse(st.value)))
             elif isinstance(st, (ast.Break, ast.Continue)):
+                # leaves the iteration being executed: nothing after it in this iteration happens
                 sink.append((type(st).__name__.lower(),))
-                return
+                raise _Stop()
             elif isinstance(st, (ast.Return, ast.Raise, ast.While, ast.With, ast.Try)):
                 raise AnalysisError("%s: statement kind the effect analysis does not model: %s" % (what, unparse(st)[:60]))
 
-    block(body, out)
+    try:
+        block(body, out)
+    except _Stop:
+        pass
     return out
